@@ -224,6 +224,17 @@ def _sign_cases(ex, st, x):
             yield st2, 0
 
 
+def _rounded_quotient(ex, st, exact):
+    """what decQuadDivide delivers for the exact quotient: the quotient itself when 34 digits hold it, otherwise a neighbour within half a
+    unit of the 34th digit - which is an INTEGER as soon as the quotient has 34 integer digits (so `x / 2` of a large odd x is integral).
+    Which of the two applies is not decided here (no digit arithmetic): both are admitted, counterexamples are confirmed natively."""
+    r = z3.Real(ex.fresh_name("quotient34"))
+    w = z3.Int(ex.fresh_name("quotient34_int"))
+    # below 34 integer digits the quotient is kept exact (as before: its fraction digits are not modelled)
+    ex.assume(st, z3.Or(r == exact, z3.And(rabs(exact) >= 10 ** 33, rabs(r - exact) * (2 * 10 ** 33) <= rabs(exact), (r > 0) == (exact > 0), r == z3.ToReal(w))))
+    return r
+
+
 def _arith(ex, st, a, b, op):
     """add / subtract / multiply / divide on two DecQuads: generator of (state, result)"""
     ka, kb = ck(a), ck(b)
@@ -240,7 +251,10 @@ def _arith(ex, st, a, b, op):
             yield from _finite_or_overflow(ex, st, rmul(ex, st, a.e, b.e))
         else:
             for st2 in ex.branch(st, b.e != 0):
-                yield from _finite_or_overflow(ex, st2, rdiv(ex, st2, a.e, b.e))
+                qx = rdiv(ex, st2, a.e, b.e)
+                # the 34-digit rounding of quotients is admitted only where an obligation asks for it (integrality / parity questions):
+                # elsewhere it only makes the mixed real / integer queries harder (finite/stddev: 0.2 s -> 200 s)
+                yield from _finite_or_overflow(ex, st2, _rounded_quotient(ex, st2, qx) if getattr(ex, "dec_round_quotient", False) else qx)
             for st2 in ex.branch(st, b.e == 0):        # x/0: Infinity (Division by zero), 0/0: NaN (Division undefined)
                 for st3, sa in _sign_cases(ex, st2, a):
                     yield st3, special(NAN) if sa == 0 else inf(sa)
